@@ -250,6 +250,35 @@ let handle (r : reader) : unit =
       let bytes = encode_rows (nat_of_int (w / 8)) l in
       out_s "OK ";
       List.iter (fun b -> Buffer.add_string buf (Printf.sprintf "%02x" (int_of_n b))) bytes
+  | "ST2R" ->
+      (* like ST2 but the output is in range-2D form: shape judged by r2d_okb *)
+      let o = next_op2 r in
+      let dt = next_n r in
+      let ds = next_n r in
+      let out = next_stmoc r in
+      let a = next_stmoc r in
+      let b = next_stmoc r in
+      let w64 = n_of_int 64 in
+      let ub = n_cells_max Hpx w64 in
+      let wf = wfb ub out && wfb ub a && wfb ub b in
+      let valid = r2d_okb w64 ds N0 None out in
+      let pts = wf && pts_opb o ub out a b in
+      let flags = (if valid then [] else r2d_flags w64 dt ds out) @ (if wf then [] else ["S_NOT_WF"]) in
+      out_s "OK"; out_bool valid; out_bool pts;
+      out_s (" " ^ (if flags = [] then "-" else String.concat "," flags))
+  | "LOOKUP" ->
+      let x = next_stmoc r in
+      let probes = next_ranges r in
+      out_s "OK";
+      List.iter (fun (t, s) -> out_bool (cov2b x t s)) probes
+  | "TFOLD" ->
+      let x = next_stmoc r in
+      let t = next_ranges r in
+      out_s "OK"; out_ranges (tfold x t)
+  | "SFOLD" ->
+      let x = next_stmoc r in
+      let s = next_ranges r in
+      out_s "OK"; out_ranges (sfold x s)
   | "STOBS" ->
       (* STOBS form dt ds out nobs (ta tb S)* : out judged against the observations' point set *)
       let form = next r in
